@@ -586,6 +586,17 @@ def install(I):
         ti = ty_info(ctx.get("dest_ty") or "") or (64, True)
         return [(top_int(ti[0], ti[1]), st)]
 
+    # ---------------- repository helpers with a verified summary (see rule MT0)
+    @model("blockdevice::BlockCount::from_bytes")
+    def from_bytes(I, st, a, ctx):
+        x = a[0]
+        if not is_int(x):
+            return NotImplemented
+        t = ("ceildiv", x[6], 512) if x[6] is not None else None
+        lo, hi = (x[4] + 511) // 512, (x[5] + 511) // 512
+        v = mk_int(32, False, None, lo, hi, t)
+        return [(agg("struct", "blockdevice::BlockCount", 0, [I.apply_ranges(st, v)]), st)]
+
     # ---------------- panics
     @model("panicking::panic", "panicking::panic_fmt", "panicking::panic_display", "panicking::assert_failed", "panicking::panic_explicit", "option::expect_failed", "result::unwrap_failed",
            "panicking::panic_bounds_check", "panicking::panic_nounwind")
